@@ -82,6 +82,12 @@ def run_one(sc):
                 nmissing += 1
                 paths.append(p)
                 continue
+            if (sc.get("env") or {}).get("samepath") and f is files[-1] and raw and len(files) >= 2:
+                # the very same path again
+                paths.append(paths[0])
+                raw.append(raw[0])
+                inputs.append(dict(inputs[0]))
+                continue
             if (sc.get("env") or {}).get("twin") and f is files[-1] and raw and len(files) >= 2:
                 # the last input is a byte-for-byte copy of the first (the same divider page used twice)
                 with open(p, "wb") as fh:
